@@ -204,6 +204,11 @@ def _gen_estimator(rng, cls):
             case["ctable"] = _map_table(case["table"], lambda v: round(v + math.log(rng.uniform(0.1, 0.9)), 4))
         else:
             case["ctable"] = _gen_table(rng, fam, shape)
+    if est == "direct" and fam == "bern_batch" and not is_log and cv != "none" and rng.random() < 0.6:
+        # f(b) = b handed back as the very tensor it was given (no copy): whatever the estimator does to f's value
+        # afterwards must not reach the sample
+        case["func_view"] = True
+        case["table"] = _map_rows01(case["table"])
     if est == "importance":
         case["theta_q"] = _gen_theta(rng, fam, shape, kind)
         case["kind_q"] = kind
@@ -527,6 +532,8 @@ def _exec_estimator(case, mon):
     def one_call(idxs):
         leaf = torch.tensor(case["theta"], dtype=dtype, requires_grad=True)
         func = S.make_func(fam, shape, case["table"], dtype, is_log)
+        if case.get("func_view") and est == "direct":
+            func = lambda b: b  # noqa: E731
         leaves = [leaf]
         if est == "enumerate":
             prop = S.build(fam, kind, shape, leaf)
